@@ -414,6 +414,25 @@ Definition run_nc (fs : list bytes) : list bytes :=
       end
   end.
 
+(* pure channel/util functions against the Go originals:
+   pf roughly <hexinput> <hexoutput>           -> bool        (util.BytesRoughlyContains)
+   pf readbuf <depth> <inputlen> <hex>         -> sd hex      (getProcessReadBufSearchDepth, processReadBuf)
+   pf procout <strip> <promptname> <rethex> <hex> -> hex      (Channel.processOut)
+   pf norm <hex>                               -> hex         (CR removal + ANSI stripping of one read) *)
+Definition run_pf (fs : list bytes) : list bytes :=
+  let op := nthf 1 fs in
+  if beqb op (bs "roughly") then [emit_bool (roughly_contains (of_hex (nthf 2 fs)) (of_hex (nthf 3 fs)))]
+  else if beqb op (bs "readbuf") then
+    let sd := search_depth (N.to_nat (parse_num (nthf 2 fs))) (N.to_nat (parse_num (nthf 3 fs))) in
+    [print_dec (N.of_nat sd); to_hex (process_read_buf (of_hex (nthf 4 fs)) sd)]
+  else if beqb op (bs "procout") then
+    match lookup_rx (nthf 3 fs) regex_table with
+    | None => [bs "no-such-prompt-pattern"]
+    | Some r => [to_hex (process_out (mkCfg 1000 r (of_hex (nthf 4 fs)) 0%Z) (of_hex (nthf 5 fs)) (parse_bool (nthf 2 fs)))]
+    end
+  else if beqb op (bs "norm") then [to_hex (normalize_chunk (of_hex (nthf 2 fs)))]
+  else [bs "unknown-pf"].
+
 Definition dispatch (fs : list bytes) : list bytes :=
   let name := nthf 0 fs in
   if beqb name (bs "c13") then run_c13 fs
@@ -431,6 +450,7 @@ Definition dispatch (fs : list bytes) : list bytes :=
   else if beqb name (bs "login") then run_login fs
   else if beqb name (bs "c16") then Pipes.run_c16 fs
   else if beqb name (bs "c19") then OptionsRun.run_c19 fs
+  else if beqb name (bs "pf") then run_pf fs
   else [bs "unknown-case"].
 
 Definition run_line (line : bytes) : bytes := unfields (dispatch (fields line)).
